@@ -258,12 +258,32 @@ class FnShape:
             for lm in re.finditer(r"(?<![A-Za-z0-9_'])(loop|while|for)(?![A-Za-z0-9_])", m[self.body_open:self.body_close]):
                 s = self.body_open + lm.start()
                 kw = lm.group(1)
-                if kw == "for" and not re.search(r"\sin\s", m[s:_safe_cond_end(m, s + 3)]):
-                    continue
-                try:
-                    bo = _cond_end(m, s + len(kw))
-                except Unsupported:
-                    continue
+                if kw == "for":
+                    # the pattern may contain braces (struct patterns): find ` in ` outside every bracket first
+                    k = s + 3
+                    in_at = None
+                    while k < self.body_close:
+                        ch = m[k]
+                        if ch in "([{":
+                            k = match_close(m, k) + 1
+                            continue
+                        if ch in ";}":
+                            break
+                        if m[k:k + 2] == "in" and m[k - 1].isspace() and m[k + 2].isspace():
+                            in_at = k
+                            break
+                        k += 1
+                    if in_at is None:
+                        continue
+                    try:
+                        bo = _cond_end(m, in_at + 2)
+                    except Unsupported:
+                        continue
+                else:
+                    try:
+                        bo = _cond_end(m, s + len(kw))
+                    except Unsupported:
+                        continue
                 # include a preceding label `'a: `
                 ls = s
                 lbl = re.search(r"'\w+\s*:\s*$", m[:s])
